@@ -13,6 +13,8 @@ package redisemu
 //@ ghost now time
 //@ ghost held bool
 //@ ghost mutated bool
+// C18: a BITFIELD write sub-command has reported a value
+//@ ghost gApplied bool
 // C02/C04: the integer parsed from the stored string / field by the counter commands
 //@ ghost gParsed int64
 //@ ghost gParsedOK bool
